@@ -56,14 +56,34 @@ REQUIRED = {"edits_attempted": 1500, "started_line_edit_attempts": 400, "rejecte
             "continuation_ticks_compared": 3000, "accepted_merge_boundary_checks": 500, "path_choice_checks": 500,
             "set_path_differential_checks": 20, "reindent_started_line_attempts": 250, "reindent_indent_started": 80,
             "reindent_indent_completed": 80, "reindent_dedent_started": 15, "reindent_dedent_completed": 15,
-            "ws_only_started_line_attempts": 250, "ws_only_trailing": 60, "ws_only_inner": 60}
+            "ws_only_started_line_attempts": 250, "ws_only_trailing": 60, "ws_only_inner": 60,
+            # line kinds x positions x change kinds of blank / whitespace-only / comment-only lines and trailing comments
+            "instruction_typed_into_passed_ws_line_attempts": 50, "ws_to_instr_passed_on_blank_line": 6,
+            "ws_to_instr_passed_on_wsonly_line": 12, "ws_to_instr_passed_on_comment_line": 20,
+            "ws_to_instr_passed_pos_next_running": 10, "ws_to_instr_passed_pos_next_completed": 30,
+            "started_instruction_blanked_out_attempts": 150, "passed_ws_line_changed_without_instruction_attempts": 25,
+            "trailing_ws_at_end_of_method_edit_attempts": 25, "ws_edit_unstarted_pos_unstarted": 20,
+            "rejected_method_state_compared": 400, "ws_only_cmt_add": 20, "ws_only_cmt_change": 5, "ws_only_cmt_remove": 5}
 
 ALLOW = ("mark", "uod", "wait", "block", "watch", "alarm", "macro", "thr", "blank", "pausehold", "counter", "info")
 KINDS = ["append_end", "append_end", "append_scope", "change_unstarted", "insert_before_unstarted", "delete_unstarted",
          "change_started", "change_started", "change_completed", "reindent_started", "reindent_completed",
-         "ws_only_started", "ws_only_completed"]
+         "ws_only_started", "ws_only_completed",
+         "ws_to_instr_passed", "ws_to_instr_passed", "ws_change_passed", "instr_to_ws_started", "instr_to_ws_completed",
+         "ws_edit_unstarted"]
 # all kinds from change_started on target a started/completed line; the reindent_* kinds change only the leading
 # whitespace (= the scope the line belongs to), the ws_only_* kinds only trailing blanks or the spacing after the first ':'
+# line kinds x positions (added after seed C01-e): the ws_* / instr_to_ws_* kinds edit blank, whitespace-only and
+# comment-only lines, or turn an instruction line into one of those:
+#   ws_to_instr_passed     an instruction is typed into a blank / whitespace-only line, or a comment-only line is
+#                          uncommented, and the run has already PASSED that line (a later line of the same scope has
+#                          started): the instruction can never run in its place any more -> must be rejected
+#   ws_change_passed       a passed blank/comment line changes without becoming an instruction (comment text, blank <->
+#                          comment, '' <-> spaces, indentation of a comment): no meaning changes, counted not judged
+#   instr_to_ws_*          a started / completed instruction line is blanked out or commented out -> must be rejected
+#   ws_edit_unstarted      the same changes on lines the run has not reached (incl. the trailing whitespace at the end of
+#                          the method, which stays editable by design): an ordinary valid edit
+WS_KINDS = ("ws_to_instr_passed", "ws_change_passed", "instr_to_ws_started", "instr_to_ws_completed", "ws_edit_unstarted")
 OPENERS = ("BlockNode", "WatchNode", "AlarmNode", "MacroNode")
 
 
@@ -82,7 +102,47 @@ def gen_case(rnd: random.Random, step: int, max_depth: int) -> dict:
     inject = None
     if rnd.random() < 0.3:
         inject = [rnd.randint(3, 20), rnd.choice(["Mark: jxa", "Other\nMark: jxa", "Wait: 0.3s\nMark: jxa", "Other"])]
-    return {"text": text, "ft": rnd.choice([0.0, 2.0, 6.0]), "inject": inject, "step": step, "sub": rnd.randrange(1 << 30)}
+    case = {"text": text, "ft": rnd.choice([0.0, 2.0, 6.0]), "inject": inject, "step": step, "sub": rnd.randrange(1 << 30)}
+    r2 = random.Random(case["sub"] * 31 + 7)       # own stream: the generator's stream stays what it was
+    if r2.random() < 0.6:
+        case["text"] = decorate(case["text"], r2)
+    return case
+
+
+def line_kind(content: str) -> str:
+    """The line kinds the parser knows: blank, whitespace-only, comment-only, instruction with / without trailing comment."""
+    s = content.strip()
+    if s == "":
+        return "blank" if content == "" else "wsonly"
+    if s.startswith("#"):
+        return "comment"
+    return "instr_cmt" if "#" in s else "instr"
+
+
+def decorate(text: str, r: random.Random) -> str:
+    """Adds the line kinds the shared generator does not emit: trailing comments on instruction lines, whitespace-only
+    lines, extra blank / comment-only lines between instructions (never directly after an opener: an opener followed by
+    whitespace only is C17's business). None of this changes what the method does."""
+    ls = text.split("\n")
+    tail = 0
+    while ls and ls[-1] == "":
+        ls.pop()
+        tail += 1
+    out = []
+    for k, ln in enumerate(ls):
+        s = ln.strip()
+        ws = s == "" or s.startswith("#")
+        if not ws and r.random() < 0.35:
+            ln = ln + r.choice(["  # n%d" % k, " # n%d" % k, "    # note %d" % k])
+        elif s == "" and r.random() < 0.5:
+            ln = " " * r.choice([1, 4, 8])
+        out.append(ln)
+        kw = s.split(":")[0].strip()
+        if not ws and kw not in ("Block", "Watch", "Alarm", "Macro") and r.random() < 0.25:
+            ind = _indent(ln)
+            out.append(r.choice(["", " " * max(ind, 2), " " * (ind + 2), " " * ind + "# c%d" % k, "# c%d" % k,
+                                 " " * ind + "# Mark: c%d" % k]))
+    return "\n".join(out) + "\n" * tail
 
 
 # ------------------------------------------------------------------------------------------------ driving
@@ -212,8 +272,144 @@ def make_edit(rnd: random.Random, run: Run, counter: list) -> dict | None:
             out.append(i)
         return out
 
+    def started_both(nd) -> bool:
+        return bool(nd.started or nd.completed) and nd.id in rep_started and not nd.failed and nd.id not in ms.failed_line_ids
+
+    def passed_by(nd):
+        """The later line of the same scope (a sibling in the interpreter's own tree) that has started in both views, or
+        None: the definition of 'the run has passed this line' used for blank/comment lines. Independent of the flags
+        and of the reported state of the blank/comment line itself."""
+        par = nd.parent
+        if par is None:
+            return None
+        sibs = list(par.children)
+        k = next((j for j, x in enumerate(sibs) if x is nd), None)
+        if k is None:
+            return None
+        for x in sibs[k + 1:]:
+            if not L.is_ws(x) and x.id in idx and started_both(x):
+                return x
+        return None
+
+    def ws_nodes():
+        return [nd for i, nd in nodes.items() if L.is_ws(nd) and i in idx]
+
+    def sibling_indent(nd) -> int | None:
+        """Indentation of the scope the ws line belongs to: that of the next non-ws sibling, else of the previous one."""
+        par = nd.parent
+        if par is None:
+            return None
+        sibs = list(par.children)
+        k = next((j for j, x in enumerate(sibs) if x is nd), None)
+        if k is None:
+            return None
+        for x in sibs[k + 1:] + sibs[:k][::-1]:
+            if not L.is_ws(x) and x.id in idx:
+                return _indent(lines[idx[x.id]][1])
+        return None
+
     kind = rnd.choice(KINDS)
-    for _attempt in range(2):
+    for _attempt in range(3):
+        if kind in ("ws_to_instr_passed", "ws_change_passed"):
+            cands = []
+            for nd in ws_nodes():
+                if L.in_repeatable(nd):
+                    continue            # a body that runs again: 'passed' holds per invocation only
+                nxt = passed_by(nd)
+                if nxt is not None:
+                    cands.append((nd, nxt))
+            if cands:
+                nd, nxt = rnd.choice(sorted(cands, key=lambda c: idx[c[0].id]))
+                i = nd.id
+                k = idx[i]
+                old = lines[k][1]
+                lk = line_kind(old)
+                ind = _indent(lines[idx[nxt.id]][1])
+                pos = "next_completed" if nxt.completed else "next_running"
+                if kind == "ws_to_instr_passed":
+                    if lk == "comment" and rnd.random() < 0.5:
+                        how = "uncommented"
+                        newc = " " * ind + (old.strip().lstrip("#").strip() or f"Mark: e{n}")
+                        if line_kind(newc) not in ("instr", "instr_cmt") or ":" not in newc:
+                            newc = " " * ind + f"Mark: e{n}"
+                    else:
+                        how = "typed"
+                        newc = " " * ind + leaf_text(rnd, n)
+                        if rnd.random() < 0.2:
+                            newc += "  # typed"
+                    exp = True
+                else:
+                    exp = None
+                    if lk == "comment":
+                        how = rnd.choice(["comment_text", "comment_text", "comment_to_blank", "comment_reindent"])
+                        newc = {"comment_text": old + f" x{n}", "comment_to_blank": rnd.choice(["", " " * max(ind, 1)]),
+                                "comment_reindent": "    " + old}[how]
+                    else:
+                        how = rnd.choice(["blank_to_comment", "blank_to_comment", "blank_spaces"])
+                        newc = " " * ind + f"# note {n}" if how == "blank_to_comment" else \
+                            ("" if old != "" else " " * rnd.choice([2, 4, 8]))
+                new = lines[:k] + [(i, newc)] + lines[k + 1:]
+                return {"kind": kind, "new_lines": new, "expect_reject": exp, "target": i, "old": old, "how": how,
+                        "linekind": lk, "pos": pos, "passed_by": nxt.id, "own_flags": bool(nd.started or nd.completed),
+                        "own_reported": i in rep_started, "new": newc}
+            kind = rnd.choice(["change_started", "change_completed", "append_end"])
+            continue
+        if kind == "ws_edit_unstarted":
+            what = rnd.choice(["type_into_ws", "type_into_ws", "change_ws", "blank_out_instr"])
+            if what == "blank_out_instr":
+                def blankable(i):
+                    par = nodes[i].parent
+                    if par is None or type(par).__name__ == "ProgramNode":
+                        return True
+                    kids = [ch for ch in par.children if not L.is_ws(ch)]
+                    return len(kids) >= 2 and kids[0] is not nodes[i]     # never leaves an opener without a first body line
+                cands = [i for i in leafs_unstarted() if blankable(i)]
+                if cands:
+                    i = rnd.choice(cands)
+                    k = idx[i]
+                    old = lines[k][1]
+                    ind = _indent(old)
+                    how = rnd.choice(["instr_to_blank", "instr_to_spaces", "instr_commented_out"])
+                    newc = {"instr_to_blank": "", "instr_to_spaces": " " * max(ind, 2),
+                            "instr_commented_out": " " * ind + "# " + old[ind:]}[how]
+                    new = lines[:k] + [(i, newc)] + lines[k + 1:]
+                    return {"kind": kind, "new_lines": new, "expect_reject": False, "target": i, "old": old, "how": how,
+                            "linekind": line_kind(old), "pos": "unstarted", "new": newc}
+            else:
+                cands = []
+                for nd in ws_nodes():
+                    if nd.started or nd.completed or nd.failed or nd.id in rep_any or passed_by(nd) is not None:
+                        continue
+                    anc = [a for a in nd.parents if type(a).__name__ != "ProgramNode"]
+                    trailing = bool(getattr(nd, "has_only_trailing_whitespace", False))
+                    if not trailing and any(a.completed or a.failed for a in anc):
+                        continue        # a scope that was cut short: nothing is known about this line
+                    cands.append((nd, trailing, anc))
+                if cands:
+                    nd, trailing, anc = rnd.choice(sorted(cands, key=lambda c: idx[c[0].id]))
+                    i = nd.id
+                    k = idx[i]
+                    old = lines[k][1]
+                    lk = line_kind(old)
+                    ind = sibling_indent(nd)
+                    if trailing and (ind is None or any(a.completed or a.failed for a in anc) or rnd.random() < 0.5):
+                        ind = 0         # the end of the method: a new root-level line
+                    if ind is not None:
+                        if what == "type_into_ws":
+                            how = "typed"
+                            newc = " " * ind + leaf_text(rnd, n)
+                        elif lk == "comment":
+                            how = rnd.choice(["comment_text", "comment_to_blank"])
+                            newc = old + f" x{n}" if how == "comment_text" else ""
+                        else:
+                            how = rnd.choice(["blank_to_comment", "blank_spaces"])
+                            newc = " " * ind + f"# note {n}" if how == "blank_to_comment" else \
+                                ("" if old != "" else " " * rnd.choice([2, 4, 8]))
+                        new = lines[:k] + [(i, newc)] + lines[k + 1:]
+                        return {"kind": kind, "new_lines": new, "expect_reject": False, "target": i, "old": old, "how": how,
+                                "linekind": lk, "pos": "trailing" if trailing else "unstarted", "new": newc}
+            kind = rnd.choice(["change_unstarted", "append_end"])
+            continue
         if kind == "append_end":
             what = rnd.random()
             if what < 0.7:
@@ -275,8 +471,10 @@ def make_edit(rnd: random.Random, run: Run, counter: list) -> dict | None:
         if cands:
             cands = sorted(cands, key=lambda x: idx[x])
             deep = [c for c in cands if _indent(lines[idx[c]][1]) >= 4]
-            dedent = kind.startswith("reindent_") and bool(deep) and rnd.random() < 0.6
-            i = rnd.choice(deep if dedent else cands)
+            dedent = kind.startswith("reindent_") and bool(deep) and rnd.random() < 0.75
+            with_cmt = [c for c in cands if "#" in lines[idx[c]][1]]
+            force_cmt = kind.startswith("ws_only_") and bool(with_cmt) and rnd.random() < 0.2
+            i = rnd.choice(deep if dedent else with_cmt if force_cmt else cands)
             k = idx[i]
             old = lines[k][1]
             ind = _indent(old)
@@ -289,15 +487,33 @@ def make_edit(rnd: random.Random, run: Run, counter: list) -> dict | None:
                         "how": "indent+4" if delta > 0 else "dedent-4", "cls": cls}
             if kind.startswith("ws_only_"):
                 # textual difference without a difference in meaning for sure: not judged either way (expect_reject None)
-                how = rnd.choice(["trailing", "trailing2", "inner"])
+                how = rnd.choice(["trailing", "trailing2", "inner", "inner", "cmt"])
+                how = "cmt" if force_cmt else how
                 body = old[ind:]
-                if how == "inner" and ": " in body:
+                if how == "cmt":
+                    # the trailing comment of an instruction line: added, changed or removed, instruction text untouched
+                    if "#" in body:
+                        how = rnd.choice(["cmt_change", "cmt_remove"])
+                        code = body[:body.index("#")]
+                        newc = code + f"# changed {n}" if how == "cmt_change" else code.rstrip()
+                    else:
+                        how = "cmt_add"
+                        newc = body + f"  # added {n}"
+                elif how == "inner" and ": " in body:
                     newc = body.replace(": ", ":  ", 1)
                 else:
                     how = "trailing" if how == "inner" else how
                     newc = body + (" " if how == "trailing" else "   ")
                 new = lines[:k] + [(i, " " * ind + newc)] + lines[k + 1:]
                 return {"kind": kind, "new_lines": new, "expect_reject": None, "target": i, "old": old, "how": how}
+            if kind.startswith("instr_to_ws_"):
+                # the instruction disappears: the line becomes blank, whitespace-only or is commented out
+                how = rnd.choice(["instr_to_blank", "instr_to_spaces", "instr_commented_out"])
+                newc = {"instr_to_blank": "", "instr_to_spaces": " " * max(ind, 2),
+                        "instr_commented_out": " " * ind + "# " + old[ind:]}[how]
+                new = lines[:k] + [(i, newc)] + lines[k + 1:]
+                return {"kind": kind, "new_lines": new, "expect_reject": True, "target": i, "old": old, "how": how,
+                        "linekind": line_kind(old), "pos": "completed" if nodes[i].completed else "started", "new": newc}
             if cls == "BlockNode":
                 newc = f"Block: bx{n}"
             elif cls in ("WatchNode", "AlarmNode"):
@@ -307,8 +523,11 @@ def make_edit(rnd: random.Random, run: Run, counter: list) -> dict | None:
                 newc = f"Macro: MX{n}"
             else:
                 newc = f"Mark: x{n}"
+            keeps = "#" in old and rnd.random() < 0.5
+            if keeps:
+                newc += "  " + old[old.index("#"):]        # the instruction changes, its trailing comment stays
             new = lines[:k] + [(i, " " * ind + newc)] + lines[k + 1:]
-            return {"kind": kind, "new_lines": new, "expect_reject": True, "target": i, "old": old}
+            return {"kind": kind, "new_lines": new, "expect_reject": True, "target": i, "old": old, "keeps_comment": keeps}
         kind = "append_end"
     return None
 
@@ -429,9 +648,29 @@ def edited_run(case, t, sseed, base_digests, T, res: Result, viol, sub):
                 if ed["cls"] in OPENERS:
                     res.count("reindent_of_scope_opener")
             ws_only = ed["expect_reject"] is None
-            if ws_only:
+            if ed["kind"].startswith("ws_only_"):
                 res.count("ws_only_started_line_attempts")
                 res.count("ws_only_" + ed["how"])
+            if ed.get("keeps_comment"):
+                res.count("change_started_line_keeping_its_trailing_comment")
+            if ed["kind"] in WS_KINDS:
+                # line kind x position x change kind of the blank/comment-line stratum
+                res.count("ws_line_edit_attempts")
+                res.count(f"{ed['kind']}_{ed['how']}")
+                res.count(f"{ed['kind']}_on_{ed['linekind']}_line")
+                res.count(f"{ed['kind']}_pos_{ed['pos']}")
+                if ed["kind"] == "ws_to_instr_passed":
+                    res.count("instruction_typed_into_passed_ws_line_attempts")
+                    res.count("passed_ws_line_own_flags_" + ("set" if ed["own_flags"] else "unset"))
+                    res.count("passed_ws_line_reported_" + ("yes" if ed["own_reported"] else "no"))
+                elif ed["kind"].startswith("instr_to_ws_"):
+                    res.count("started_instruction_blanked_out_attempts")
+                elif ed["kind"] == "ws_change_passed":
+                    res.count("passed_ws_line_changed_without_instruction_attempts")
+                elif ed["pos"] == "trailing":
+                    res.count("trailing_ws_at_end_of_method_edit_attempts")
+                    if exc is None:
+                        res.count("trailing_ws_at_end_of_method_edit_accepted")
             # ------------------------------------------------------------ rejected
             if exc is not None:
                 snap1 = L.snapshot(rig)
@@ -443,6 +682,20 @@ def edited_run(case, t, sseed, base_digests, T, res: Result, viol, sub):
                         raise _Stop()
                     res.count("started_line_edit_rejected")
                     res.count("rejected_snapshot_checks")
+                    # the reported method state on its own (it is also part of the snapshot): same ids, same order
+                    res.count("rejected_method_state_compared")
+                    ms1 = mm.get_method_state()
+                    if L.state_sets(ms0) != L.state_sets(ms1) or list(ms0.started_line_ids) != list(ms1.started_line_ids) \
+                            or list(ms0.executed_line_ids) != list(ms1.executed_line_ids):
+                        V("C01.rejected_edit_changed_method_state",
+                          f"{desc}: rejected with MethodEditError but the reported method state changed: started "
+                          f"{list(ms0.started_line_ids)} -> {list(ms1.started_line_ids)}, executed "
+                          f"{list(ms0.executed_line_ids)} -> {list(ms1.executed_line_ids)}"[:600])
+                        raise _Stop()
+                    if ed["kind"] == "ws_to_instr_passed":
+                        res.count("instruction_typed_into_passed_ws_line_rejected")
+                    elif ed["kind"].startswith("instr_to_ws_"):
+                        res.count("started_instruction_blanked_out_rejected")
                     if diff:
                         V("C01.rejected_edit_left_trace", f"{desc}: rejected with MethodEditError but the observable snapshot "
                                                           f"changed in {diff}")
@@ -452,7 +705,7 @@ def edited_run(case, t, sseed, base_digests, T, res: Result, viol, sub):
                     # then it is a rejection like any other (not the error state); the continuation is compared below
                     res.count("ws_only_edit_rejected")
                     if not isinstance(exc, MethodEditError):
-                        V(None, f"{desc}: whitespace-only change ({ed['how']}) of started line {ed['target']} "
+                        V(None, f"{desc}: meaning-preserving change ({ed['how']}) of started/passed line {ed['target']} "
                                 f"({ed.get('old')!r}) raised {type(exc).__name__} instead of MethodEditError: {exc}"[:500])
                         raise _Stop()
                     if diff:
@@ -475,6 +728,14 @@ def edited_run(case, t, sseed, base_digests, T, res: Result, viol, sub):
                         V("C01.reindented_started_line_edit_accepted",
                           f"{desc}: line {ed['target']} was reported as started/executed ({ed.get('old')!r}) but the edit that "
                           f"changes only its indentation ({ed['how']}, i.e. the scope it belongs to) was accepted ({result})")
+                        raise _Stop()
+                    if ed["kind"] == "ws_to_instr_passed":
+                        V("C01.instruction_typed_into_passed_line_accepted",
+                          f"{desc}: the run had passed the {ed['linekind']} line {ed['target']} ({ed.get('old')!r}; the later "
+                          f"line {ed['passed_by']} of the same scope was started/executed in the reported state and in the "
+                          f"interpreter's nodes), but the edit that turns it into the instruction {ed['new']!r} was accepted "
+                          f"({result}): that instruction can no longer run in its place (line itself reported "
+                          f"started/executed before the edit: {ed['own_reported']}, its node flags set: {ed['own_flags']})")
                         raise _Stop()
                     V("C01.started_line_edit_accepted",
                       f"{desc}: line {ed['target']} was reported as started/executed ({ed.get('old')!r}) but the edit that "
